@@ -584,7 +584,7 @@ func runPeer(r *common.Run) {
 		"cycle with lagging LastApplied AND >=1 snapshot restore or effective compaction; distinct by hash of the executed op list")
 	r.Assume("peer mode: follower role only (the harness plays the leaders; fewer ticks than an election timeout), single step worker order " +
 		"GetUpdate -> save -> LogReader.Append -> removeLog -> Commit; entries of a range are observed through Update and LogQueryResult only")
-	total := r.Pick(1200, 100000)
+	total := r.Pick(12000, 100000)
 	cases := r.MyCases(total)
 	if r.Replay != "" {
 		c, ok := replayCase(r.Replay)
